@@ -275,8 +275,16 @@ def cfg_s(tree, inherited_alg="eddsa", top=True):
         negcfg = draw(st.sampled_from([{"key-name": kn, "key-id": "1"}, {"omit-signing": True}, {"omit-signing": True, "key-name": kn, "key-id": "2"},
                                        {"omit-signing": True, "dependencies": {"#inner": {"omit-signing": True}}}]))
         if neg == 0:
-            deps["#absent"] = negcfg
+            # a name that is not a member: an unrelated one, or a near miss of a member that IS there (no leading '#', another case, a
+            # trailing blank, a doubled '#') - names are exact
+            present = sorted(tree["deps"])
+            near = []
+            for nm in present[:1]:
+                near += [nm.lstrip("#"), nm.upper() if nm.upper() != nm else nm.lower(), nm + " ", "#" + nm, nm[:-1]]
+            absent = draw(st.sampled_from(["#absent"] + [x for x in near if x and x not in tree["deps"] and x != "#pl"]))
+            deps[absent] = negcfg
             plan["negative"] = "absent dependency"
+            plan["near_miss"] = absent != "#absent"
         elif neg == 1 and tree["payload"]:
             deps["#pl"] = negcfg
             plan["negative"] = "dependency is not an envelope"
